@@ -12,7 +12,7 @@
 (* where both must coincide (otherwise the number of distinct states       *)
 (* exceeds the number of records and the trace is rejected).               *)
 (*                                                                         *)
-(* Mismatches are printed as <<"MISMATCH", pos, n, failed-checks>> and the *)
+(* Mismatches are printed as <<"MISMATCH", dspos, n, failed-checks>> and the *)
 (* run continues, so one run reports every disagreement.                   *)
 (***************************************************************************)
 EXTENDS Units, Val, TLC, Json, IOUtils, FiniteSets
@@ -22,18 +22,18 @@ CONSTANT ChunkLen
 Rec == TLCEval(ndJsonDeserialize(IOEnv.TRACE))
 NRec == Len(Rec)
 
-VARIABLES pos, f
-vars == <<pos, f>>
+VARIABLES dspos, frame
+vars == <<dspos, frame>>
 
 IsHead(i) == IF i = 1 THEN TRUE ELSE (Rec[i].n # Rec[i - 1].n + 1 \/ i % ChunkLen = 1)
 Heads == {i \in 1..NRec : IsHead(i)}
 
-Init == \E i \in Heads : pos = i /\ f = Frame(Rec[i].n)
+Init == \E i \in Heads : dspos = i /\ frame = Frame(Rec[i].n)
 
-Next == /\ pos < NRec
-        /\ Rec[pos + 1].n = f.n + 1
-        /\ pos' = pos + 1
-        /\ f' = NextFrame(f)
+Next == /\ dspos < NRec
+        /\ Rec[dspos + 1].n = frame.n + 1
+        /\ dspos' = dspos + 1
+        /\ frame' = NextFrame(frame)
 
 Spec == Init /\ [][Next]_vars
 
@@ -52,29 +52,29 @@ InstResOK(res, x) ==
   IF InDateRange(x[1]) THEN IsOk(res, x) ELSE IsErr(res)
 
 CalChecks(r) == <<
-  <<"ymd",   r.ymd = <<f.y, f.m, f.d>> >>,
-  <<"rt",    IsOk(r.rt, f.n)>>,
-  <<"fd",    IsOk(r.fd, f.n)>>,
+  <<"ymd",   r.ymd = <<frame.y, frame.m, frame.d>> >>,
+  <<"rt",    IsOk(r.rt, frame.n)>>,
+  <<"fd",    IsOk(r.fd, frame.n)>>,
   <<"valid", r.valid = 1>>,
-  <<"dow",   r.dow = f.wd>>,
-  <<"acc",   r.acc = <<f.y, f.m, f.d>> >>,
-  <<"ordp",  r.ordp = (IF f.n > DateMin THEN 1 ELSE 0)>>,
+  <<"dow",   r.dow = frame.wd>>,
+  <<"acc",   r.acc = <<frame.y, frame.m, frame.d>> >>,
+  <<"ordp",  r.ordp = (IF frame.n > DateMin THEN 1 ELSE 0)>>,
   <<"eq",    r.eq = 1 /\ r.heq = 1>>,
-  <<"ldm",   r.ldm = f.n - f.d + MonthLen(f.y, f.m)>>
+  <<"ldm",   r.ldm = frame.n - frame.d + MonthLen(frame.y, frame.m)>>
 >>
 
 TruncDateOK(i, res) ==
   LET u == UnitSeq[i] IN
-  IF u \in ClockUnits THEN IsOk(res, f.n)
-  ELSE DayResOK(res, {TruncDay(u, f)})
+  IF u \in ClockUnits THEN IsOk(res, frame.n)
+  ELSE DayResOK(res, {TruncDay(u, frame)})
 RoundDateOK(i, res) ==
   LET u == UnitSeq[i] IN
-  IF u \in ClockUnits THEN IsOk(res, f.n)
-  ELSE DayResOK(res, RoundDays(u, f, 0, IsStart(u, f)))
+  IF u \in ClockUnits THEN IsOk(res, frame.n)
+  ELSE DayResOK(res, RoundDays(u, frame, 0, IsStart(u, frame)))
 
 \* monotone in the input (C10, C11): compare with the previous record when it
 \* is the previous day; ISO-year rounding is exempt as the property says
-PrevIsYesterday == pos > 1 /\ Rec[pos - 1].n = f.n - 1
+PrevIsYesterday == dspos > 1 /\ Rec[dspos - 1].n = frame.n - 1
 MonoOK(prev, cur, i, exemptIso) ==
   (prev[i][1] = 0 /\ cur[i][1] = 0 /\ ~(exemptIso /\ UnitSeq[i] = "isoyear"))
      => prev[i][2] <= cur[i][2]
@@ -82,22 +82,22 @@ MonoOK(prev, cur, i, exemptIso) ==
 DtrChecks(r) ==
   [i \in 1..12 |-> <<"tr", i, TruncDateOK(i, r.tr[i])>>] \o
   [i \in 1..12 |-> <<"rd", i, RoundDateOK(i, r.rd[i])>>] \o
-  [i \in 1..12 |-> <<"trmono", i, PrevIsYesterday /\ Has(Rec[pos - 1], "tr") =>
-                                     MonoOK(Rec[pos - 1].tr, r.tr, i, FALSE)>>] \o
-  [i \in 1..12 |-> <<"rdmono", i, PrevIsYesterday /\ Has(Rec[pos - 1], "rd") =>
-                                     MonoOK(Rec[pos - 1].rd, r.rd, i, TRUE)>>]
+  [i \in 1..12 |-> <<"trmono", i, PrevIsYesterday /\ Has(Rec[dspos - 1], "tr") =>
+                                     MonoOK(Rec[dspos - 1].tr, r.tr, i, FALSE)>>] \o
+  [i \in 1..12 |-> <<"rdmono", i, PrevIsYesterday /\ Has(Rec[dspos - 1], "rd") =>
+                                     MonoOK(Rec[dspos - 1].rd, r.rd, i, TRUE)>>]
 
 \* timestamp / Oracle-date truncation and rounding at second-of-day s, microsecond us
 TruncInstOK(i, res, s, us) ==
   LET u == UnitSeq[i] IN
-  CASE u = "hour"   -> IsOk(res, <<f.n, (s \div 3600) * 3600, 0>>)
-    [] u = "minute" -> IsOk(res, <<f.n, (s \div 60) * 60, 0>>)
-    [] OTHER        -> MidResOK(res, {TruncDay(u, f)})
+  CASE u = "hour"   -> IsOk(res, <<frame.n, (s \div 3600) * 3600, 0>>)
+    [] u = "minute" -> IsOk(res, <<frame.n, (s \div 60) * 60, 0>>)
+    [] OTHER        -> MidResOK(res, {TruncDay(u, frame)})
 RoundInstOK(i, res, s, us) ==
   LET u == UnitSeq[i] IN
-  CASE u = "hour"   -> InstResOK(res, Norm(<<f.n, ((s \div 3600) + (IF s % 3600 >= 1800 THEN 1 ELSE 0)) * 3600, 0>>))
-    [] u = "minute" -> InstResOK(res, Norm(<<f.n, ((s \div 60) + (IF s % 60 >= 30 THEN 1 ELSE 0)) * 60, 0>>))
-    [] OTHER        -> MidResOK(res, RoundDays(u, f, s \div 3600, IsStart(u, f) /\ s = 0 /\ us = 0))
+  CASE u = "hour"   -> InstResOK(res, Norm(<<frame.n, ((s \div 3600) + (IF s % 3600 >= 1800 THEN 1 ELSE 0)) * 3600, 0>>))
+    [] u = "minute" -> InstResOK(res, Norm(<<frame.n, ((s \div 60) + (IF s % 60 >= 30 THEN 1 ELSE 0)) * 60, 0>>))
+    [] OTHER        -> MidResOK(res, RoundDays(u, frame, s \div 3600, IsStart(u, frame) /\ s = 0 /\ us = 0))
 
 TmChecks(e) ==
   LET s == e.t[1]  us == e.t[2]  hms == Hms(s) IN
@@ -110,19 +110,19 @@ TmChecks(e) ==
      [i \in 1..12 |-> <<"ord", i, RoundInstOK(i, e.ord[i], s, 0)>>]
    ELSE <<>>) \o
   (IF Has(e, "us") THEN <<
-     <<"us",   0, e.us = <<f.n, s, us>> >>,
-     <<"ext",  0, e.ext = <<f.n, s, us>> >>,
-     <<"tacc", 0, e.acc = <<f.y, f.m, f.d, hms[1], hms[2], hms[3] * 1000000 + us>> >>,
-     <<"dt",   0, e.dt = f.n>>,
+     <<"us",   0, e.us = <<frame.n, s, us>> >>,
+     <<"ext",  0, e.ext = <<frame.n, s, us>> >>,
+     <<"tacc", 0, e.acc = <<frame.y, frame.m, frame.d, hms[1], hms[2], hms[3] * 1000000 + us>> >>,
+     <<"dt",   0, e.dt = frame.n>>,
      <<"tt",   0, e.tt = <<s, us>> >>,
-     <<"cmpp", 0, e.cmpp = (IF <<f.n, s, us>> = TsMin THEN 0 ELSE 1)>>,
+     <<"cmpp", 0, e.cmpp = (IF <<frame.n, s, us>> = TsMin THEN 0 ELSE 1)>>,
      <<"cmpd", 0, LET c == IF s = 0 /\ us = 0 THEN 0 ELSE 1 IN e.cmpd = <<c, -c>> >>
    >> ELSE <<>>) \o
   (IF Has(e, "of") THEN <<
-     <<"of",   0, e.of = <<f.n, s, 0>> >>,
-     <<"on",   0, e.on = <<f.n, s, 0>> >>,
-     <<"ou",   0, IF us = 0 THEN IsOk(e.ou, <<f.n, s, 0>>) ELSE IsErr(e.ou)>>,
-     <<"oext", 0, e.oext = <<f.n, s, 0>> >>
+     <<"of",   0, e.of = <<frame.n, s, 0>> >>,
+     <<"on",   0, e.on = <<frame.n, s, 0>> >>,
+     <<"ou",   0, IF us = 0 THEN IsOk(e.ou, <<frame.n, s, 0>>) ELSE IsErr(e.ou)>>,
+     <<"oext", 0, e.oext = <<frame.n, s, 0>> >>
    >> ELSE <<>>)
 
 \* C17: the three types agree.  Date results lifted to midnight must equal the
@@ -149,20 +149,20 @@ Last(t) == t[Len(t)]
 Failed(cs) == {<<c[1], c[2]>> : c \in {cs[k] : k \in 1..Len(cs)} \ {cs[k] : k \in {j \in 1..Len(cs) : Last(cs[j])}}}
 
 RecOK ==
-  LET r == Rec[pos]
+  LET r == Rec[dspos]
       ac  == AllChecks(r)
       ok1 == \A k \in 1..Len(ac) : Last(ac[k])
       ok2 == Has(r, "tm") => \A j \in 1..Len(r.tm) :
                 LET cs == TmChecks(r.tm[j]) \o AgreeChecks(r, r.tm[j]) IN \A k \in 1..Len(cs) : Last(cs[k])
-  IN /\ r.n = f.n
+  IN /\ r.n = frame.n
      /\ ok1
      /\ ok2
 
 \* the invariant never fails: it reports and lets TLC go on
 Judge ==
   RecOK \/
-  LET r == Rec[pos] IN
-  PrintT(<<"MISMATCH", pos, f.n,
+  LET r == Rec[dspos] IN
+  PrintT(<<"MISMATCH", dspos, frame.n,
            Failed(AllChecks(r)) \cup
            (IF Has(r, "tm") THEN UNION {{<<j, c[1], c[2]>> : c \in Failed(TmChecks(r.tm[j]) \o AgreeChecks(r, r.tm[j]))} : j \in 1..Len(r.tm)}
             ELSE {})>>)
